@@ -68,6 +68,7 @@ def run(F, rep, tier):
     # checked forgets it for the next type the node meets
     constraints_are_kept(F, rep)
     purity_is_not_rewritten(F, rep)
+    purity_walks_reach_every_component(F, rep)
 
 
 def open_purity_is_not_copied(F, rep, where):
@@ -752,3 +753,59 @@ def annotation_purity(F, rep, rule="PURITY-UNIFY"):
     ok = found == ["Pure", "Undefined"]
     rep.ob(rule, "inner_resolve_type|annotation-purity", ok,
            "the purity of a written function type is chosen among %s (expected: Pure for `pu`, Undefined for `fn`)" % found, firt["sp"])
+
+
+def purity_walks_reach_every_component(F, rep, rule="PURITY-COPY"):
+    """The checker has walks over a type that look for (or settle) the purity of the function types *in* it: the test that keeps a field
+    with an open purity from being copied, the pass that makes what an external hands out impure.  A function type sits wherever a type
+    has components; TypeChecker::parts lists them for every constructor (the copy follows exactly those).  A purity walk - a work-list
+    loop in whose body Purity is named - that has no arm for a constructor with components stops in front of it: the function type
+    behind it (`get: pu int -> Maybe(fn int -> int)`) keeps an open purity, each copy settles it for itself, and a pure function calls an
+    impure one."""
+    fparts = F.fn(TC + "parts")
+    rep.analysed(fparts)
+    with_parts = set()
+    for m in matches_on(fn_body(fparts), TY):
+        for arm, alt, vp in arm_alternatives(m):
+            if not vp:
+                continue
+            b = peel(arm["body"])
+            empty = b.get("k") == "Call" and (callee(b) or "").endswith("Vec::new") or pp(b).strip() in ("Vec::new()", "vec![]")
+            if not empty:
+                with_parts.add(last(vp))
+        break
+    if not with_parts:
+        rep.anchor_missing("the constructors TypeChecker::parts gives components for")
+        return
+    n = 0
+    for fn in F.fns_in(TC):
+        if fn["_path"] == TC + "parts":
+            continue
+        for lp in [x for x in nodes(fn_body(fn)) if x.get("k") in ("Loop", "While")]:
+            pops = [c for c in nodes(lp, "MethodCall") if c["m"] == "pop" and "Vec<" in (peel(c["recv"]).get("ty") or "")]
+            if not pops or "Purity::" not in pp(lp):
+                continue
+            wl = peel(pops[0]["recv"]).get("hid")
+            ms = [m for m in matches_on(lp, TY)]
+            if wl is None or not ms:
+                continue
+            n += 1
+            m = ms[0]
+            reached = set()
+            generic = False
+            for arm, alt, vp in arm_alternatives(m):
+                grows = [c for c in nodes(arm["body"], "MethodCall") if c["m"] in ("push", "extend", "append") and peel(c["recv"]).get("hid") == wl]
+                stops = [r for r in nodes(arm["body"], "Ret")]
+                if vp and (grows or stops):
+                    reached.add(last(vp))
+                if not vp and any(callee(c) == TC + "parts" for c in nodes(arm["body"], "MethodCall")) and grows:
+                    generic = True
+            missing = sorted(with_parts - reached) if not generic else []
+            rep.ob(rule, "%s|purity-walk|reaches-every-component" % last(fn["_path"]), not missing,
+                   "the purity walk in TypeChecker::%s goes on into the components of %s" % (last(fn["_path"]), "every type (parts())" if generic else sorted(reached))
+                   if not missing else
+                   "the purity walk in TypeChecker::%s has no arm for %s, which TypeChecker::parts gives components: a function type behind one "
+                   "of these (`get: pu int -> Maybe(fn int -> int)`, `hook : fn -> Maybe(fn int -> int) : external`) keeps an open purity that "
+                   "every copy settles for itself - a pure function calls an impure one through it" % (last(fn["_path"]), ", ".join("Type::" + x for x in missing)),
+                   line_of(m))
+    rep.floor(rule, "purity walks over a work list", n, 2)
